@@ -106,7 +106,9 @@ def gen_history(rng):
                         f_BH=({"$h": rng.choice(["fbh", "fbh_ok"])} if two else 0.001), N0=5e5, strict_BH_target=False,
                         natal_kicks=rng.choice([True, False]), vesc=rng.choice([30, 90]), BH_IFMR_kwargs=rng.choice([{"$h": "d_empty"}, None]))
         else:
-            args = dict(IMF={"$h": "imf"}, nbins={"$h": "nbins"}, FeH=feh, natal_kicks=False)
+            args = dict(IMF={"$h": rng.choice(["imf", "imf", "imf1"])}, nbins={"$h": "nbins"}, FeH=feh, natal_kicks=False)
+            if rng.random() < 0.6:
+                args["N0"] = rng.choice([2e5, 1e6, 5e5])
             if rng.random() < 0.5:
                 args["BH_IFMR_kwargs"] = {"$h": "d_empty"}
             if rng.random() < 0.5:
